@@ -246,7 +246,9 @@ func runC04(c *Ctx) {
 		}
 	}
 	// ---- R2 ------------------------------------------------------------------------------------
-	c.Rule("R2", "PartitionBasedOnPriorityList: membership by IsPrioritylisted(consumerId, validator's address); both partitions sorted descending by Power; returns (priority, nonPriority)", 3)
+	c.Rule("R2", "PartitionBasedOnPriorityList: membership by IsPrioritylisted(consumerId, validator's address); both partitions sorted descending by Power; returns (priority, nonPriority); the priority index is rebuilt whenever the stored list differs positionally from the new one", 3)
+	// IsPrioritylisted reads the index; the index follows the stored priority list
+	checkListIndexRefresh(c, "Prioritylist")
 	if f := c.Fn("pk.Keeper.PartitionBasedOnPriorityList"); f != nil {
 		val := PElemOf(PParam("nextValidators"))
 		isP := ABool("IsPrioritylisted", PCall("pk.Keeper.IsPrioritylisted", -1, nil, nil, PParam("consumerId"), PCall("pt.NewProviderConsAddress", -1, nil, PField(val, "ProviderConsAddr"))))
